@@ -78,6 +78,11 @@ class VersionIndex:
         if path.exists():
             conn = sqlite3.connect(path)
             format_version = conn.execute(q.get_format_version).fetchone()[0]
+            if format_version == 0 and cls._is_empty_database(conn):
+                # The file was created by a command that was interrupted before
+                # it could set up the schema. Treat it as a new index.
+                cls._create_schema(conn)
+                return VersionIndex(conn, 0, path)
             if format_version == 1:
                 # Upgrade the version index to format 2.
                 cls._run_v1_to_v2_migration(conn, path)
@@ -97,10 +102,22 @@ class VersionIndex:
         # Need to create the DB
         path.parent.mkdir(parents=True, exist_ok=True)
         conn = sqlite3.connect(path)
+        cls._create_schema(conn)
+        return VersionIndex(conn, 0, path)
+
+    @classmethod
+    def _create_schema(cls, conn: sqlite3.Connection) -> None:
+        # The format version and the table must appear together: if Conductor
+        # is interrupted in between, a file that claims to be a valid index but
+        # has no table would make every later command fail.
+        conn.execute("BEGIN")
         conn.execute(q.set_format_version.format(version=cls.FormatVersion))
         conn.execute(q.create_table)
         conn.commit()
-        return VersionIndex(conn, 0, path)
+
+    @staticmethod
+    def _is_empty_database(conn: sqlite3.Connection) -> bool:
+        return conn.execute("SELECT COUNT(*) FROM sqlite_master").fetchone()[0] == 0
 
     def clone(self) -> "VersionIndex":
         """
